@@ -615,6 +615,8 @@ func execScenario(sc scenario, labels map[string]bool, nontrivial *bool) (failur
 		}
 	}
 	callersDone := make([]chan struct{}, len(sc.Callers))
+	var lateInsts []*winst
+	var lateFailure atomic.Value
 	for i, c := range sc.Callers {
 		callersDone[i] = make(chan struct{})
 		labels["caller_"+c] = true
@@ -627,10 +629,17 @@ func execScenario(sc scenario, labels map[string]bool, nontrivial *bool) (failur
 				close(ch)
 			}(callersDone[i])
 		} else {
-			go func(ch chan struct{}) {
+			late := newInst(fmt.Sprintf("late%d", i), 1, false)
+			lateInsts = append(lateInsts, late)
+			go func(ch chan struct{}, i int) {
 				d.Shutdown()
+				// "after shutdown no worker can be added or started": Shutdown does not wait for the workers, the daemon is
+				// stopped all the same when the call has returned
+				if err := d.BackgroundWorker(late.name, late.handler(clk), late.order); !errors.Is(err, daemon.ErrDaemonAlreadyStopped) {
+					lateFailure.CompareAndSwap(nil, fmt.Sprintf("BackgroundWorker right after Shutdown() returned (caller %d) returned %v, want ErrDaemonAlreadyStopped", i, err))
+				}
 				close(ch)
-			}(callersDone[i])
+			}(callersDone[i], i)
 		}
 	}
 	if len(sc.Callers) > 1 {
@@ -696,6 +705,12 @@ func execScenario(sc scenario, labels map[string]bool, nontrivial *bool) (failur
 			return f
 		}
 	}
+	if f := lateFailure.Load(); f != nil {
+		return f.(string)
+	}
+	if len(lateInsts) > 0 {
+		labels["add_right_after_async_shutdown"] = true
+	}
 	final := new(atomic.Int64)
 	finalDone := make(chan struct{})
 	go func() {
@@ -740,6 +755,11 @@ func execScenario(sc scenario, labels map[string]bool, nontrivial *bool) (failur
 	ctl.Settle(200 * time.Microsecond)
 	if post.runs.Load() != 0 {
 		return "a worker added after the shutdown was started"
+	}
+	for _, late := range lateInsts {
+		if late.runs.Load() != 0 {
+			return "a worker added right after Shutdown() returned was started"
+		}
 	}
 	if sc.StartMode == "never" {
 		for _, w := range all {
